@@ -199,4 +199,14 @@ def run(chk: common.Check) -> None:
                 m.append(f"{h['hook']} was called in state {h['state']} with run_arg {'present' if h['run_arg'] else 'absent'}")
         if m:
             oracle_fail.append(({'real_run': sp}, m, None))
+    # a hook that is busy for seconds on one event while the run comes to its end (script ends / child is killed with events queued behind it)
+    from . import _lag
+    lag_specs = _lag.specs()
+    for sp, r in zip(lag_specs, common.real_runs(lag_specs, jobs=2, hard_timeout=150)):
+        chk.cov.case(('real-lagging-hook', sp['lag']))
+        chk.cov.count('kinds', 'real-child-hook-busy-at-the-end-' + sp['lag'])
+        found = _lag.oracle(sp, r)
+        msgs = [m for a in ('protocol', 'delivery') for m in found[a]]
+        if msgs:
+            oracle_fail.append(({'real_run': sp}, msgs, None))
     _life.finish(chk, 'C12', oracle_fail, dis, 'hook log')
